@@ -61,6 +61,18 @@ def run(ctx):
         c = families.mkcase(f"MIP-{i}", {"x": x, "y": y}, impl, None, {"func": "inplace-metadata", "dtype": d, "dclass": family.dclass(d)}, rnd)
         c["lazy_subsets"] = [{"names": ["x", "y"]}, {"names": ["x", "y"], "sigs": {"x": [None] * r, "y": [None] * (r + 1)}}, {"names": ["x"]}]
         cases.append(c)
+    # a data-holding plain array combined with a NULLABLE placeholder whose static shape has an extent 1 that is broadcast up:
+    # both fields of the result have the broadcast shape (statically and at run time)
+    for i in range(30 * scale):
+        d = rnd.choice(["int64", "float64", "int32"])
+        full = [rnd.choice([2, 3]), rnd.choice([2, 3])]
+        ysh = [1 if (j == k_) else e for j, e in enumerate(full)] if (k_ := rnd.randint(0, 1)) is not None else full
+        x = ops.tensor(rnd, d, full, "small")
+        y = ops.tensor(rnd, "n" + d, ysh, "small")
+        f_ = rnd.choice(["x + y", "y * x", "ndx.less(x, y)", "ndx.where(y > 0, x, y)", "ndx.subtract(y, x)"])
+        c = families.mkcase(f"MCN-{i}", {"x": x, "y": y}, f"out = {f_}", None, {"func": "const-with-nullable-placeholder", "dtype": "n" + d, "dclass": family.dclass("n" + d)}, rnd)
+        c["lazy_subsets"] = [{"names": ["y"]}, {"names": ["y"], "sigs": {"y": [None if e == 1 else e for e in ysh]}}, {"names": ["x", "y"]}]
+        cases.append(c)
     # the shape-as-array result is an ordinary array: writing into it must not change what x reports afterwards
     for i in range(24 * scale):
         d = rnd.choice(["int64", "float32", "nint32"])
